@@ -25,6 +25,7 @@ import Knut.Driver.C02
 import Knut.Driver.GoSemFmt
 import Knut.Driver.GoSemBean
 import Knut.Driver.GoSemFloat
+import Knut.Driver.GoSemMapping
 import Knut.Driver.GoSemTable
 import Knut.Driver.GoSemParse
 /-! Line-protocol driver over the executable model: one request per line (`op field*`), one answer line.
@@ -59,6 +60,7 @@ def handlers : List (List String → Option String) := [
   Knut.Driver.GoSemFmt.handle,
   Knut.Driver.GoSemBean.handle,
   Knut.Driver.GoSemFloat.handle,
+  Knut.Driver.GoSemMapping.handle,
   Knut.Driver.GoSemTable.handle,
   Knut.Driver.GoSemParse.handle
 ]
